@@ -26,6 +26,7 @@ RULE = (
 ASSUMPTIONS = [
     "in-dispatch removal is generated only as self-removal",
     "BLOB re-uploads with identical bytes may or may not raise a value event (BLOB values have identity equality)",
+    "no BLOB and an empty payload without a format are one value; an empty payload with a format is a value of its own",
 ]
 
 ETYPES = ["Base", "Value", "State", "Definition"]
@@ -69,6 +70,14 @@ def matches(cb, ev):
     return cb["etype"] == "Base" or cb["etype"].lower() == kind
 
 
+def _blob_norm(v):
+    """None and an empty payload without a format are the same value; an empty payload WITH a format is not (C08: an
+    empty BLOB keeps its format), so an application following the events must learn about it."""
+    if v is None or (isinstance(v, tuple) and len(v[0]) == 0 and not v[1]):
+        return None
+    return v
+
+
 def split_expected(ref_events, is_def, ref_before):
     """-> (required Counter, optional Counter) of event tuples for one message."""
     req, opt = Counter(), Counter()
@@ -80,9 +89,8 @@ def split_expected(ref_events, is_def, ref_before):
                 opt[(kind, dev, vec, el, None, None)] += 1
                 continue
             if blobish:
-                new_n = None if new is None or len(new[0]) == 0 else new
-                old_n = None if old is None or (isinstance(old, tuple) and len(old[0]) == 0) else old
-                # events for BLOBs are compared on (bytes, format); empty == none
+                new_n, old_n = _blob_norm(new), _blob_norm(old)
+                # events for BLOBs are compared on (bytes, format); a BLOB with neither bytes nor format == none
                 t = (kind, dev, vec, el, "*", new_n)
                 (opt if old_n == new_n else req)[t] += 1
                 continue
@@ -93,8 +101,7 @@ def split_expected(ref_events, is_def, ref_before):
 def normalize_got(ev):
     kind, dev, vec, el, old, new = ev
     if kind == "value" and (isinstance(new, tuple) or isinstance(old, tuple)):
-        new_n = None if new is None or len(new[0]) == 0 else new
-        return (kind, dev, vec, el, "*", new_n)
+        return (kind, dev, vec, el, "*", _blob_norm(new))
     return ev
 
 
